@@ -263,6 +263,13 @@ def corpus():
         P(0, 0, 1, n=3, z=1.0, L=1.0), P(1, 2, 1, n=2, L=0.6),
         ["create_sink", dict(index=0, junction=2, mdot_kg_per_s=0.02)],
         ["create_source", dict(index=0, junction=1, mdot_kg_per_s=0.005)]]}))
+    # gas pipe whose end pressures are np.isclose (mean-pressure fallback of the gas result extraction)
+    out.append(("gas", "gas_small_dp", {"fluid": "hgas", "ops": [
+        ["create_junction", dict(index=0, pn_bar=3.0, tfluid_k=283.15)],
+        ["create_junction", dict(index=1, pn_bar=3.0, tfluid_k=283.15)],
+        ["create_ext_grid", dict(index=0, junction=0, p_bar=3.0, t_k=283.15)],
+        [PIPE, dict(index=0, from_junction=0, to_junction=1, length_km=0.1, inner_diameter_mm=100., k_mm=0.1)],
+        ["create_sink", dict(index=0, junction=1, mdot_kg_per_s=0.006)]]}))
     # heat: cooling multi-section pipes, one declared against the flow
     out.append(("heat", "heat_line", {"fluid": "water", "ops": [
         J(0, t=350.), J(1, t=350.), J(2, t=350.),
@@ -285,6 +292,9 @@ def classify(clause, profile, spec, diff, s1=None):
         if s1 is not None:      # the same pipe in the other description (absent there if it was split into pieces)
             n = max(n, spec_info(s1).get(lab, {}).get("sections", 1))
         sig["multi_section"] = n > 1
+    if sig["column"] == "v_mean_m_per_s" and spec.get("fluid") != "water" and isinstance(x, float) and isinstance(y, float):
+        # size of the deviation: the isclose fallback of the gas mean pressure can move v_mean by at most 1e-5 relative
+        sig["gas_rel_dev_le_1e-5"] = abs(x - y) <= 1.1e-5 * abs(x)
     return sig
 
 
